@@ -173,3 +173,100 @@ func eventsIn(cs []ChunkObs) int {
 	}
 	return n
 }
+
+// ---------------------------------------------------------------------------------------------------------------
+// "blind" cases: the partitions are written, the server is stopped, the snapshot of the time index (cindex/cindex.dat,
+// written by a clean shutdown only) is taken away and the server is started again on the same directory: the start after
+// a crash. The time index then knows nothing about the chunks; SyncChunks fills the time range of a chunk from its first
+// and its last record (cindex.lightFill), swapping the two when the first record is the newer one (fresh data followed by
+// late data). TRUNCATE ... BEFORE decides on that range. The generator of these cases keeps the newest event of every
+// chunk at one of its ends (C02's recorded finding is about a newest event in the middle, which lightFill cannot see).
+func runBlind(rp *Replay) (*outcome, error) {
+	dir := TempDir("c09blind")
+	defer os.RemoveAll(dir)
+	srv, err := StartServer(ServerOpts{Dir: dir, MaxChunkSize: maxChunkSize})
+	if err != nil {
+		return nil, err
+	}
+	vc := int(atomicNext())
+	r1 := &runner{srv: srv, ctx: context.Background()}
+	if err := r1.build(vc, rp.Parts); err != nil {
+		srv.Stop()
+		return nil, err
+	}
+	srv.Stop()
+	if err := os.Remove(dir + "/cindex/cindex.dat"); err != nil && !os.IsNotExist(err) {
+		return nil, err
+	}
+	srv2, err := StartServer(ServerOpts{Dir: dir, MaxChunkSize: maxChunkSize})
+	if err != nil {
+		return nil, fmt.Errorf("blind: the start without cindex.dat failed: %v", err)
+	}
+	defer srv2.Stop()
+	// nothing is rebuilt in the background: DESCRIBE / GetParitionInfo and RANGE reads ask for a rebuild of every chunk without an index,
+	// and a served rebuild replaces lightFill's range by the exact one - then the statement would not see the range this case is about
+	srv2.Partitions.VC02HoldRebuilder()
+	r2 := &runner{srv: srv2, ctx: context.Background(), noQuiesce: true}
+	r2.decorate()
+	r2.decorateJournals()
+	r2.decorateTsIndexer()
+	return r2.runBuilt(rp, vc)
+}
+
+// genBlind: chunks of exactly four records (messages of 12 bytes), timestamps increasing, except that in some chunks the
+// newest record comes first (fresh event first, late data after), also with the oldest last, or the two oldest swapped
+func genBlind(r *Rng) Replay {
+	np := r.PickInt(1, 1, 2)
+	parts := make([]PartSpec, np)
+	for i := range parts {
+		nch := r.PickInt(2, 3, 4)
+		t := int64(10 + i)
+		var bs [][]Ev
+		for c := 0; c < nch; c++ {
+			ts := make([]int64, 4)
+			for k := range ts {
+				ts[k] = t
+				t += 10 * int64(r.Range(1, 3))
+			}
+			switch r.Intn(4) {
+			case 0: // newest first
+				ts = []int64{ts[3], ts[0], ts[1], ts[2]}
+			case 1: // newest first and oldest last
+				ts = []int64{ts[3], ts[1], ts[2], ts[0]}
+			case 2: // newest last, the oldest not first (the lower end of the range is too high: harmless for BEFORE)
+				ts = []int64{ts[1], ts[0], ts[2], ts[3]}
+			}
+			var b []Ev
+			for _, x := range ts {
+				b = append(b, Ev{Ts: x, Len: 12})
+			}
+			if r.Chance(1, 2) {
+				bs = append(bs, b[:1], b[1:]) // the fresh event in a write call of its own
+			} else {
+				bs = append(bs, b)
+			}
+		}
+		parts[i] = PartSpec{Grp: "a", Batches: bs}
+	}
+	return Replay{Kind: "trunc", Parts: parts, PSeed: r.U64(), Blind: true, TsClass: "small"}
+}
+
+func blindCorpus() []Replay {
+	var out []Replay
+	// chunk 1 = 50,10,20,30 (the fresh event first), chunk 2 = 60..90: BEFORE 31 and 45 stand behind the chunk's last event but not behind its
+	// newest: nothing may go; BEFORE 51 takes chunk 1. The same with the oldest event last (50,20,30,10).
+	for _, first := range [][]int64{{50, 10, 20, 30}, {50, 20, 30, 10}} {
+		for _, b := range []int64{31, 45, 50, 51} {
+			var c1, c2 []Ev
+			for _, x := range first {
+				c1 = append(c1, Ev{Ts: x, Len: 12})
+			}
+			for _, x := range []int64{60, 70, 80, 90} {
+				c2 = append(c2, Ev{Ts: x, Len: 12})
+			}
+			out = append(out, Replay{Kind: "trunc", Parts: []PartSpec{{Grp: "a", Batches: [][]Ev{c1, c2}}}, Blind: true,
+				P: &Params{SrcForm: "expr", Min: -1, Max: -1, Before: b, MaxDb: -1}})
+		}
+	}
+	return out
+}
